@@ -65,6 +65,9 @@ type codeCfg struct {
 	// library functions whose first argument is an environment field and which act on it (http.Error(w, …)): full name →
 	// recorded name
 	envFuncs map[string]string
+	// assignment to a field of a local value of a library struct type ("pkgpath.Type.Field") → the Lean function
+	// `set value newFieldValue` that stands for it
+	libFieldSet map[string]string
 }
 
 type unsupported struct{ why string }
@@ -90,6 +93,7 @@ func leanIdent(s string) string {
 }
 
 type goTranslator struct {
+	decls map[string]*ast.FuncDecl // methods of the receiver type, by name
 	cfg   codeCfg
 	pkg   *packages.Package
 	info  *types.Info
@@ -241,6 +245,25 @@ func (m *mctx) envField(e ast.Expr) (string, bool) {
 	if id, ok := e.(*ast.Ident); ok {
 		if f, ok := m.aliases[id.Name]; ok {
 			return f, true
+		}
+		return "", false
+	}
+	// c.M() where M is the trivial getter `return c.f` of a field of interface type: the same environment object
+	if ce, ok := e.(*ast.CallExpr); ok && len(ce.Args) == 0 {
+		if cs, ok := ce.Fun.(*ast.SelectorExpr); ok && m.isRecv(cs.X) {
+			if fd := m.g.decls[cs.Sel.Name]; fd != nil && fd.Body != nil && len(fd.Body.List) == 1 && len(fd.Recv.List[0].Names) == 1 {
+				if rs, ok := fd.Body.List[0].(*ast.ReturnStmt); ok && len(rs.Results) == 1 {
+					if fs, ok := rs.Results[0].(*ast.SelectorExpr); ok {
+						if id, ok := fs.X.(*ast.Ident); ok && id.Name == fd.Recv.List[0].Names[0].Name {
+							if tv, ok := m.g.info.Types[fs]; ok {
+								if _, isIface := tv.Type.Underlying().(*types.Interface); isIface {
+									return fs.Sel.Name, true
+								}
+							}
+						}
+					}
+				}
+			}
 		}
 		return "", false
 	}
@@ -1126,6 +1149,16 @@ func (m *mctx) store(lhs ast.Expr, val string, ind string) string {
 			return fmt.Sprintf("%slet %s := { %s with %s := %s };\n", ind, w, w, leanIdent(l.Sel.Name), val)
 		}
 	}
+	if l, ok := lhs.(*ast.SelectorExpr); ok {
+		if id, ok := l.X.(*ast.Ident); ok && !m.isRecv(id) {
+			if sel := m.g.info.Selections[l]; sel != nil && sel.Kind() == types.FieldVal {
+				key := fieldOwner(sel) + "." + l.Sel.Name
+				if fn, ok := m.g.cfg.libFieldSet[key]; ok {
+					return fmt.Sprintf("%slet %s := %s %s %s;\n", ind, leanIdent(id.Name), fn, leanIdent(id.Name), atomOf(val))
+				}
+			}
+		}
+	}
 	bad("assignment to %s", goExprText(lhs))
 	return ""
 }
@@ -1354,7 +1387,20 @@ func translateType(repo string, cfg codeCfg) (string, error) {
 	if !ok {
 		return "", fmt.Errorf("%s is not a struct", cfg.recvType)
 	}
-	g := &goTranslator{cfg: cfg, pkg: pkg, info: pkg.TypesInfo, recvT: named, st: st}
+	g := &goTranslator{cfg: cfg, pkg: pkg, info: pkg.TypesInfo, recvT: named, st: st, decls: map[string]*ast.FuncDecl{}}
+	for _, file := range pkg.Syntax {
+		for _, d := range file.Decls {
+			if fd, ok := d.(*ast.FuncDecl); ok && fd.Recv != nil && len(fd.Recv.List) == 1 {
+				rt := g.info.Types[fd.Recv.List[0].Type].Type
+				if p, ok := rt.(*types.Pointer); ok {
+					rt = p.Elem()
+				}
+				if rt == types.Type(named) {
+					g.decls[fd.Name.Name] = fd
+				}
+			}
+		}
+	}
 
 	var out strings.Builder
 	for _, im := range cfg.imports {
